@@ -227,11 +227,17 @@ class ModBuilder:
             bdef = build_bundle(self.design, bp[1], built)
             role = built.roles[bp[1]].get(bp[3]) if len(bp) > 3 and bp[3] else None
             flip = bool(bp[2]) if len(bp) > 2 else False
+            # port-ness spelt as a boolean or as a `Visibility`, in the constructor or by attribute afterwards
+            vis_via = ms.get("vis_via", "ctor-bool")
+            pv = h.signal.Visibility.PORT if vis_via.endswith("vis") else True
+            pkw = {"port": pv} if vis_via.startswith("ctor") else {}
             if len(bp) > 4 and bp[4] == "fn":
                 # flip through the `h.flipped()` function instead of the constructor flag
-                bi = h.flipped(h.BundleInstance(of=bdef, port=True, flipped=not flip, role=role))
+                bi = h.flipped(h.BundleInstance(of=bdef, flipped=not flip, role=role, **pkw))
             else:
-                bi = h.BundleInstance(of=bdef, port=True, flipped=flip, role=role)
+                bi = h.BundleInstance(of=bdef, flipped=flip, role=role, **pkw)
+            if not pkw:
+                bi.port = pv
             self.attrs[bp[0]] = bi
         for s in ms["sigs"]:
             self.attrs[s[0]] = h.Signal(width=s[1])
@@ -247,6 +253,13 @@ class ModBuilder:
                 self.attrs[b[0]] = (2 * h.BundleInstance(of=build_bundle(self.design, b[1], built)))[1]
             else:
                 self.attrs[b[0]] = h.BundleInstance(of=build_bundle(self.design, b[1], built))
+            vis_via = ms.get("vis_via", "ctor-bool")
+            if vis_via == "ctor-vis" and not how:
+                self.attrs[b[0]] = h.BundleInstance(of=build_bundle(self.design, b[1], built), port=h.signal.Visibility.INTERNAL)
+            elif vis_via == "attr-vis":
+                self.attrs[b[0]].port = h.signal.Visibility.INTERNAL
+            elif vis_via == "attr-bool":
+                self.attrs[b[0]].port = False
         for i in ms["insts"]:
             inst = self.make_inst(i)
             self.insts[i["name"]] = inst
